@@ -26,6 +26,7 @@ import (
 	"sync"
 	"testing"
 	"testing/synctest"
+	"time"
 
 	"github.com/libp2p/go-libp2p/core/connmgr"
 	"github.com/libp2p/go-libp2p/core/event"
@@ -42,6 +43,7 @@ import (
 	"google.golang.org/protobuf/proto"
 
 	pb "github.com/libp2p/go-libp2p-kad-dht/pb"
+	ic "github.com/libp2p/go-libp2p/core/crypto"
 )
 
 const c13Prefix = protocol.ID("/verifc13")
@@ -179,6 +181,11 @@ func (s *c13Stream) Conn() network.Conn            { return s.conn }
 func (s *c13Stream) ID() string                    { return fmt.Sprintf("c13-%d", s.id) }
 
 // responses counts the complete varint-delimited messages written so far.
+func (s *c13Stream) Scope() network.StreamScope       { return &network.NullScope{} }
+func (s *c13Stream) SetDeadline(time.Time) error      { return nil }
+func (s *c13Stream) SetReadDeadline(time.Time) error  { return nil }
+func (s *c13Stream) SetWriteDeadline(time.Time) error { return nil }
+
 func (s *c13Stream) responses() int {
 	s.mu.Lock()
 	buf := append([]byte(nil), s.out.Bytes()...)
@@ -205,12 +212,29 @@ func (s *c13Stream) flags() (rst, closed bool) {
 
 type c13Conn struct {
 	network.Conn
+	local   peer.ID
 	remote  peer.ID
+	dir     network.Direction // direction of the CONNECTION; independent of the direction of its streams
+	idx     int
 	mu      sync.Mutex
 	streams []*c13Stream
 }
 
+var c13ConnAddr = ma.StringCast("/ip4/8.8.4.4/tcp/4001")
+
+// Everything moveToClientMode / handleNewStream could reasonably ask a connection.
 func (c *c13Conn) RemotePeer() peer.ID { return c.remote }
+func (c *c13Conn) LocalPeer() peer.ID  { return c.local }
+func (c *c13Conn) ID() string          { return fmt.Sprintf("c13-conn-%d", c.idx) }
+func (c *c13Conn) Stat() network.ConnStats {
+	return network.ConnStats{Stats: network.Stats{Direction: c.dir}, NumStreams: len(c.GetStreams())}
+}
+func (c *c13Conn) ConnState() network.ConnectionState { return network.ConnectionState{} }
+func (c *c13Conn) Scope() network.ConnScope           { return &network.NullScope{} }
+func (c *c13Conn) IsClosed() bool                     { return false }
+func (c *c13Conn) LocalMultiaddr() ma.Multiaddr       { return c13ConnAddr }
+func (c *c13Conn) RemoteMultiaddr() ma.Multiaddr      { return c13ConnAddr }
+func (c *c13Conn) RemotePublicKey() ic.PubKey         { return nil }
 func (c *c13Conn) GetStreams() []network.Stream {
 	c.mu.Lock()
 	defer c.mu.Unlock()
@@ -373,6 +397,7 @@ type c13SObs struct {
 	Handled int    `json:"handled"`
 	Rst     bool   `json:"rst"`
 	Closed  bool   `json:"closed"`
+	ConnDir string `json:"conn_dir"` // direction of the connection carrying the stream (not part of the model)
 }
 type c13Snap struct {
 	Mode    int       `json:"mode"`
@@ -442,7 +467,8 @@ func (dr *c13Driver) snap() c13Snap {
 	for _, id := range ids {
 		s := dr.streams[id]
 		rst, closed := s.flags()
-		p.Streams = append(p.Streams, c13SObs{ID: id, Kind: s.kind, Vis: s.Protocol() != "", Handled: s.responses(), Rst: rst, Closed: closed})
+		p.Streams = append(p.Streams, c13SObs{ID: id, Kind: s.kind, Vis: s.Protocol() != "", Handled: s.responses(), Rst: rst, Closed: closed,
+			ConnDir: s.conn.dir.String()})
 	}
 	return p
 }
@@ -738,7 +764,13 @@ func c13RunCase(t *testing.T, r *vfRand, m ModeOpt, gated bool, nops int, script
 		self := c13PeerID(r)
 		nw := &c13Net{self: self, ps: ps}
 		for i := 0; i < 2; i++ {
-			nw.conns = append(nw.conns, &c13Conn{remote: c13PeerID(r)})
+			// one connection the remote opened, one we dialed: inbound DHT streams arrive on both
+			// (a remote may open a stream to us over a connection we dialed), and so do outbound ones
+			dir := network.DirInbound
+			if i == 1 {
+				dir = network.DirOutbound
+			}
+			nw.conns = append(nw.conns, &c13Conn{local: self, remote: c13PeerID(r), dir: dir, idx: i})
 		}
 		h := &c13Host{id: self, ps: ps, bus: eventbus.NewBus(), net: nw, handlers: map[protocol.ID]network.StreamHandler{}}
 		d, err := New(h, Mode(m), DisableAutoRefresh(), disableFixLowPeersRoutine(t), ProtocolPrefix(c13Prefix),
